@@ -230,6 +230,20 @@ pub(crate) fn helper_called(id: u32, args: [u64; 5], ret: u64) {
             rec.out.push_str("],\"ret\":");
             push_word(&mut rec.out, ret);
             let _ = writeln!(rec.out, ",\"memchg\":{changed}}}");
+            if changed {
+                // the helper wrote memory: record what the three regions look like now
+                rec.out.push_str("{\"e\":\"memafter\",\"mem\":");
+                push_bytes(&mut rec.out, unsafe { raw(rec.mem) });
+                rec.out.push_str(",\"mbuff\":");
+                push_bytes(&mut rec.out, unsafe { raw(rec.mbuff) });
+                rec.out.push_str(",\"stack\":");
+                if rec.stack.is_null() {
+                    rec.out.push_str("[]");
+                } else {
+                    push_bytes(&mut rec.out, unsafe { std::slice::from_raw_parts(rec.stack, 512) });
+                }
+                rec.out.push_str("}\n");
+            }
         }
     });
 }
